@@ -4,6 +4,7 @@ import (
 	"bytes"
 	"encoding/json"
 	"errors"
+	"fmt"
 	"io/ioutil"
 	"net/http"
 	"strconv"
@@ -86,7 +87,7 @@ func (q *MultiOpQueryer) fetch(inputs []*requests.Request) ([]requests.Response,
 	payload = bRs
 
 	// a place to store the results
-	results := make(requests.Responses, len(inputs))
+	var results requests.Responses
 
 	// execute http request
 	response, err := q.sendQueryRequest(payload)
@@ -98,6 +99,11 @@ func (q *MultiOpQueryer) fetch(inputs []*requests.Request) ([]requests.Response,
 	// a place to handle each result
 	if err := json.Unmarshal(response, &results); err != nil {
 		return nil, err
+	}
+
+	// the service must answer every request of the batch, no more and no less
+	if len(results) != len(inputs) {
+		return nil, fmt.Errorf("expected %d responses, got %d", len(inputs), len(results))
 	}
 
 	// return the results
